@@ -10,51 +10,53 @@ use vh_lite::{read_cases, drive, drive_group, quiet_panics, Out};
 
 mod tc_left__ser;
 mod tc_left__src0;
-mod tc_left__srcpar;
-mod tc_nonlin__ser;
-mod tc_nonlin__permpar;
-mod mutual__topar;
-mod mutual__srcred;
-mod mutual__permpar;
-mod scc_chain__topar;
-mod diamond__ser;
-mod repeated__pari;
-mod three_dyn__ser;
-mod three_dyn__permpar;
-mod conds__par;
-mod conds__srcto;
-mod conds__ren;
-mod count_up__to;
-mod multi_head__perm2;
-mod facts__gen;
+mod tc_left__runhead;
+mod tc_left__u64;
+mod tc_nonlin__perm2;
+mod mutual__pari;
+mod mutual__src2;
+mod mutual__srcpar;
+mod scc_chain__ser;
+mod scc_chain__permpar;
+mod consts__par;
+mod repeated__permpar;
+mod three_dyn__topar;
+mod four_dyn__ser;
+mod conds__gen;
+mod conds__init3;
+mod expr_args__ser;
+mod multi_head__ser;
+mod multi_head__permpar;
+mod facts__src1;
 mod facts__runpar;
 mod facts__strpar;
 mod opt_cols__src1;
-mod cartesian__ser;
-mod same_gen__perm1;
-mod not_reorderable__par;
-mod pre_join_rec__ser;
-mod pre_join_rec__permpar;
-mod two_inputs__gen;
-mod two_inputs__runpar;
-mod two_inputs__strpar;
-mod ternary__perm2;
-mod bound_mix__pari;
-mod join_chain__ser;
-mod join_chain__u64;
-mod reach__to;
-mod lag_right__ser;
-mod lag_right__permpar;
-mod lag_left__topar;
-mod lag_mid__pari;
-mod lag_late_delta__ser;
-mod multi_head_rec__to;
-mod sp_dual__topar;
-mod sp_dual__srcred;
-mod sp_dual__permpar;
-mod longest_capped__pari;
-mod set_reach__run;
-mod set_reach__redecl;
+mod opt_cols__runpar;
+mod same_gen__to;
+mod same_gen__strpar;
+mod not_reorderable__ren;
+mod pre_join_rec__perm2;
+mod two_inputs__run;
+mod two_inputs__redecl;
+mod two_inputs__ren;
+mod ternary__ser;
+mod ternary__u64;
+mod bound_mix__permpar;
+mod join_chain__perm2;
+mod cond_simple_join__pari;
+mod zero_arity__pari;
+mod lag_right__topar;
+mod lag_left__ser;
+mod lag_three__to;
+mod lag_mid__permpar;
+mod lag_late_delta__topar;
+mod sp_dual__ser;
+mod sp_dual__src0;
+mod sp_dual__runhead;
+mod sp_weighted__par;
+mod longest_capped__topar;
+mod set_reach__gen;
+mod set_reach__init3;
 mod bset__topar;
 mod opt_lat__pari;
 mod lex_dual_lat__pari;
@@ -63,104 +65,107 @@ mod lat_pre_join__par;
 mod lat_val_bound__par;
 mod lat_input__mrt;
 mod lat_input__init;
-mod count_paths__run;
-mod count_paths__redecl;
-mod neg_basic__topar;
-mod neg_basic__srcred;
-mod neg_basic__permpar;
-mod agg_depth__pari;
-mod agg_user__ser;
-mod agg_bound_mix__ser;
-mod agg_empty_rel__ser;
-mod agg_const_args__exp;
-mod disj__to;
-mod disj__srcto;
+mod count_paths__to;
+mod count_paths__srcto;
+mod neg_basic__ser;
+mod neg_basic__src0;
+mod neg_basic__runhead;
+mod neg_basic__exppar;
+mod agg_depth__topar;
+mod agg_user__pari;
+mod agg_bound_mix__pari;
+mod agg_empty_rel__pari;
+mod agg_pre_join__ser;
+mod disj__run;
+mod disj__redecl;
 mod disj__ren;
 mod disj_nested__exppar;
 mod rep_expr__pari;
 mod neg_in_disj__ser;
 mod mac_basic__to;
 mod mac_basic__srcto;
-mod mac_capture__ser;
-mod mac_nested__exp;
-mod mac_local_names__par;
-mod mac_block__exppar;
-mod stress_lat__pari;
-mod rnd_core_01__par;
-mod rnd_core_04__ser;
-mod rnd_core_06__pari;
-mod rnd_core_09__par;
-mod rnd_core_12__ser;
-mod rnd_core_14__pari;
-mod rnd_core_17__par;
-mod rnd_core_20__ser;
-mod rnd_core_22__pari;
-mod rnd_core_25__par;
-mod rnd_core_28__ser;
-mod rnd_core_30__pari;
-mod rnd_agg_03__par;
-mod rnd_agg_06__ser;
-mod rnd_agg_08__pari;
-mod rnd_agg_11__par;
-mod rnd_agg_14__ser;
-mod rnd_prec_01__pari;
-mod rnd_prec_03__ser;
-mod rnd_prec_04__to;
-mod rnd_prec_06__par;
-mod rnd_prec_07__topar;
-mod rnd_prea_01__pari;
-mod rnd_prea_04__par;
-mod rnd_prea_07__ser;
+mod mac_basic__exp;
+mod mac_nested__par;
+mod mac_gensym_disj__exppar;
+mod mac_block__pari;
+mod stress_lat__ser;
+mod stress_rel__pari;
+mod rnd_core_03__par;
+mod rnd_core_06__ser;
+mod rnd_core_08__pari;
+mod rnd_core_11__par;
+mod rnd_core_14__ser;
+mod rnd_core_16__pari;
+mod rnd_core_19__par;
+mod rnd_core_22__ser;
+mod rnd_core_24__pari;
+mod rnd_core_27__par;
+mod rnd_core_30__ser;
+mod rnd_agg_02__pari;
+mod rnd_agg_05__par;
+mod rnd_agg_08__ser;
+mod rnd_agg_10__pari;
+mod rnd_agg_13__par;
+mod rnd_prec_01__ser;
+mod rnd_prec_02__to;
+mod rnd_prec_04__par;
+mod rnd_prec_05__topar;
+mod rnd_prec_07__pari;
+mod rnd_prea_01__ser;
+mod rnd_prea_03__pari;
+mod rnd_prea_06__par;
 
 fn lookup(name: &str) -> fn() -> Box<dyn Driven> {
    match name {
       "tc_left__ser" => tc_left__ser::make,
       "tc_left__src0" => tc_left__src0::make,
-      "tc_left__srcpar" => tc_left__srcpar::make,
-      "tc_nonlin__ser" => tc_nonlin__ser::make,
-      "tc_nonlin__permpar" => tc_nonlin__permpar::make,
-      "mutual__topar" => mutual__topar::make,
-      "mutual__srcred" => mutual__srcred::make,
-      "mutual__permpar" => mutual__permpar::make,
-      "scc_chain__topar" => scc_chain__topar::make,
-      "diamond__ser" => diamond__ser::make,
-      "repeated__pari" => repeated__pari::make,
-      "three_dyn__ser" => three_dyn__ser::make,
-      "three_dyn__permpar" => three_dyn__permpar::make,
-      "conds__par" => conds__par::make,
-      "conds__srcto" => conds__srcto::make,
-      "conds__ren" => conds__ren::make,
-      "count_up__to" => count_up__to::make,
-      "multi_head__perm2" => multi_head__perm2::make,
-      "facts__gen" => facts__gen::make,
+      "tc_left__runhead" => tc_left__runhead::make,
+      "tc_left__u64" => tc_left__u64::make,
+      "tc_nonlin__perm2" => tc_nonlin__perm2::make,
+      "mutual__pari" => mutual__pari::make,
+      "mutual__src2" => mutual__src2::make,
+      "mutual__srcpar" => mutual__srcpar::make,
+      "scc_chain__ser" => scc_chain__ser::make,
+      "scc_chain__permpar" => scc_chain__permpar::make,
+      "consts__par" => consts__par::make,
+      "repeated__permpar" => repeated__permpar::make,
+      "three_dyn__topar" => three_dyn__topar::make,
+      "four_dyn__ser" => four_dyn__ser::make,
+      "conds__gen" => conds__gen::make,
+      "conds__init3" => conds__init3::make,
+      "expr_args__ser" => expr_args__ser::make,
+      "multi_head__ser" => multi_head__ser::make,
+      "multi_head__permpar" => multi_head__permpar::make,
+      "facts__src1" => facts__src1::make,
       "facts__runpar" => facts__runpar::make,
       "facts__strpar" => facts__strpar::make,
       "opt_cols__src1" => opt_cols__src1::make,
-      "cartesian__ser" => cartesian__ser::make,
-      "same_gen__perm1" => same_gen__perm1::make,
-      "not_reorderable__par" => not_reorderable__par::make,
-      "pre_join_rec__ser" => pre_join_rec__ser::make,
-      "pre_join_rec__permpar" => pre_join_rec__permpar::make,
-      "two_inputs__gen" => two_inputs__gen::make,
-      "two_inputs__runpar" => two_inputs__runpar::make,
-      "two_inputs__strpar" => two_inputs__strpar::make,
-      "ternary__perm2" => ternary__perm2::make,
-      "bound_mix__pari" => bound_mix__pari::make,
-      "join_chain__ser" => join_chain__ser::make,
-      "join_chain__u64" => join_chain__u64::make,
-      "reach__to" => reach__to::make,
-      "lag_right__ser" => lag_right__ser::make,
-      "lag_right__permpar" => lag_right__permpar::make,
-      "lag_left__topar" => lag_left__topar::make,
-      "lag_mid__pari" => lag_mid__pari::make,
-      "lag_late_delta__ser" => lag_late_delta__ser::make,
-      "multi_head_rec__to" => multi_head_rec__to::make,
-      "sp_dual__topar" => sp_dual__topar::make,
-      "sp_dual__srcred" => sp_dual__srcred::make,
-      "sp_dual__permpar" => sp_dual__permpar::make,
-      "longest_capped__pari" => longest_capped__pari::make,
-      "set_reach__run" => set_reach__run::make,
-      "set_reach__redecl" => set_reach__redecl::make,
+      "opt_cols__runpar" => opt_cols__runpar::make,
+      "same_gen__to" => same_gen__to::make,
+      "same_gen__strpar" => same_gen__strpar::make,
+      "not_reorderable__ren" => not_reorderable__ren::make,
+      "pre_join_rec__perm2" => pre_join_rec__perm2::make,
+      "two_inputs__run" => two_inputs__run::make,
+      "two_inputs__redecl" => two_inputs__redecl::make,
+      "two_inputs__ren" => two_inputs__ren::make,
+      "ternary__ser" => ternary__ser::make,
+      "ternary__u64" => ternary__u64::make,
+      "bound_mix__permpar" => bound_mix__permpar::make,
+      "join_chain__perm2" => join_chain__perm2::make,
+      "cond_simple_join__pari" => cond_simple_join__pari::make,
+      "zero_arity__pari" => zero_arity__pari::make,
+      "lag_right__topar" => lag_right__topar::make,
+      "lag_left__ser" => lag_left__ser::make,
+      "lag_three__to" => lag_three__to::make,
+      "lag_mid__permpar" => lag_mid__permpar::make,
+      "lag_late_delta__topar" => lag_late_delta__topar::make,
+      "sp_dual__ser" => sp_dual__ser::make,
+      "sp_dual__src0" => sp_dual__src0::make,
+      "sp_dual__runhead" => sp_dual__runhead::make,
+      "sp_weighted__par" => sp_weighted__par::make,
+      "longest_capped__topar" => longest_capped__topar::make,
+      "set_reach__gen" => set_reach__gen::make,
+      "set_reach__init3" => set_reach__init3::make,
       "bset__topar" => bset__topar::make,
       "opt_lat__pari" => opt_lat__pari::make,
       "lex_dual_lat__pari" => lex_dual_lat__pari::make,
@@ -169,54 +174,55 @@ fn lookup(name: &str) -> fn() -> Box<dyn Driven> {
       "lat_val_bound__par" => lat_val_bound__par::make,
       "lat_input__mrt" => lat_input__mrt::make,
       "lat_input__init" => lat_input__init::make,
-      "count_paths__run" => count_paths__run::make,
-      "count_paths__redecl" => count_paths__redecl::make,
-      "neg_basic__topar" => neg_basic__topar::make,
-      "neg_basic__srcred" => neg_basic__srcred::make,
-      "neg_basic__permpar" => neg_basic__permpar::make,
-      "agg_depth__pari" => agg_depth__pari::make,
-      "agg_user__ser" => agg_user__ser::make,
-      "agg_bound_mix__ser" => agg_bound_mix__ser::make,
-      "agg_empty_rel__ser" => agg_empty_rel__ser::make,
-      "agg_const_args__exp" => agg_const_args__exp::make,
-      "disj__to" => disj__to::make,
-      "disj__srcto" => disj__srcto::make,
+      "count_paths__to" => count_paths__to::make,
+      "count_paths__srcto" => count_paths__srcto::make,
+      "neg_basic__ser" => neg_basic__ser::make,
+      "neg_basic__src0" => neg_basic__src0::make,
+      "neg_basic__runhead" => neg_basic__runhead::make,
+      "neg_basic__exppar" => neg_basic__exppar::make,
+      "agg_depth__topar" => agg_depth__topar::make,
+      "agg_user__pari" => agg_user__pari::make,
+      "agg_bound_mix__pari" => agg_bound_mix__pari::make,
+      "agg_empty_rel__pari" => agg_empty_rel__pari::make,
+      "agg_pre_join__ser" => agg_pre_join__ser::make,
+      "disj__run" => disj__run::make,
+      "disj__redecl" => disj__redecl::make,
       "disj__ren" => disj__ren::make,
       "disj_nested__exppar" => disj_nested__exppar::make,
       "rep_expr__pari" => rep_expr__pari::make,
       "neg_in_disj__ser" => neg_in_disj__ser::make,
       "mac_basic__to" => mac_basic__to::make,
       "mac_basic__srcto" => mac_basic__srcto::make,
-      "mac_capture__ser" => mac_capture__ser::make,
-      "mac_nested__exp" => mac_nested__exp::make,
-      "mac_local_names__par" => mac_local_names__par::make,
-      "mac_block__exppar" => mac_block__exppar::make,
-      "stress_lat__pari" => stress_lat__pari::make,
-      "rnd_core_01__par" => rnd_core_01__par::make,
-      "rnd_core_04__ser" => rnd_core_04__ser::make,
-      "rnd_core_06__pari" => rnd_core_06__pari::make,
-      "rnd_core_09__par" => rnd_core_09__par::make,
-      "rnd_core_12__ser" => rnd_core_12__ser::make,
-      "rnd_core_14__pari" => rnd_core_14__pari::make,
-      "rnd_core_17__par" => rnd_core_17__par::make,
-      "rnd_core_20__ser" => rnd_core_20__ser::make,
-      "rnd_core_22__pari" => rnd_core_22__pari::make,
-      "rnd_core_25__par" => rnd_core_25__par::make,
-      "rnd_core_28__ser" => rnd_core_28__ser::make,
-      "rnd_core_30__pari" => rnd_core_30__pari::make,
-      "rnd_agg_03__par" => rnd_agg_03__par::make,
-      "rnd_agg_06__ser" => rnd_agg_06__ser::make,
-      "rnd_agg_08__pari" => rnd_agg_08__pari::make,
-      "rnd_agg_11__par" => rnd_agg_11__par::make,
-      "rnd_agg_14__ser" => rnd_agg_14__ser::make,
-      "rnd_prec_01__pari" => rnd_prec_01__pari::make,
-      "rnd_prec_03__ser" => rnd_prec_03__ser::make,
-      "rnd_prec_04__to" => rnd_prec_04__to::make,
-      "rnd_prec_06__par" => rnd_prec_06__par::make,
-      "rnd_prec_07__topar" => rnd_prec_07__topar::make,
-      "rnd_prea_01__pari" => rnd_prea_01__pari::make,
-      "rnd_prea_04__par" => rnd_prea_04__par::make,
-      "rnd_prea_07__ser" => rnd_prea_07__ser::make,
+      "mac_basic__exp" => mac_basic__exp::make,
+      "mac_nested__par" => mac_nested__par::make,
+      "mac_gensym_disj__exppar" => mac_gensym_disj__exppar::make,
+      "mac_block__pari" => mac_block__pari::make,
+      "stress_lat__ser" => stress_lat__ser::make,
+      "stress_rel__pari" => stress_rel__pari::make,
+      "rnd_core_03__par" => rnd_core_03__par::make,
+      "rnd_core_06__ser" => rnd_core_06__ser::make,
+      "rnd_core_08__pari" => rnd_core_08__pari::make,
+      "rnd_core_11__par" => rnd_core_11__par::make,
+      "rnd_core_14__ser" => rnd_core_14__ser::make,
+      "rnd_core_16__pari" => rnd_core_16__pari::make,
+      "rnd_core_19__par" => rnd_core_19__par::make,
+      "rnd_core_22__ser" => rnd_core_22__ser::make,
+      "rnd_core_24__pari" => rnd_core_24__pari::make,
+      "rnd_core_27__par" => rnd_core_27__par::make,
+      "rnd_core_30__ser" => rnd_core_30__ser::make,
+      "rnd_agg_02__pari" => rnd_agg_02__pari::make,
+      "rnd_agg_05__par" => rnd_agg_05__par::make,
+      "rnd_agg_08__ser" => rnd_agg_08__ser::make,
+      "rnd_agg_10__pari" => rnd_agg_10__pari::make,
+      "rnd_agg_13__par" => rnd_agg_13__par::make,
+      "rnd_prec_01__ser" => rnd_prec_01__ser::make,
+      "rnd_prec_02__to" => rnd_prec_02__to::make,
+      "rnd_prec_04__par" => rnd_prec_04__par::make,
+      "rnd_prec_05__topar" => rnd_prec_05__topar::make,
+      "rnd_prec_07__pari" => rnd_prec_07__pari::make,
+      "rnd_prea_01__ser" => rnd_prea_01__ser::make,
+      "rnd_prea_03__pari" => rnd_prea_03__pari::make,
+      "rnd_prea_06__par" => rnd_prea_06__par::make,
       _ => panic!("no such program variant in this shard: {}", name),
    }
 }
